@@ -198,7 +198,7 @@ CONDITIONS = [
               "0 <= a0 < 5", "0 <= a1 < 5", "0 <= a2 < 5"],
          partitions={"quick": [{"n": 3, "s3": 0, "s4": 0, "s5": 0, "a0": 2, "a1": 2, "a2": a, "s0": x} for a in (2, 4) for x in range(6)] +
                               [{"n": 4, "s4": 0, "s5": 0, "a0": 2, "a1": 2, "a2": 2, "s0": x, "s1": y} for x in range(6) for y in range(6)],
-                     "thorough": [{"n": 5, "s5": 0, "a0": 2, "a1": 2, "a2": a, "s0": x, "s1": y} for a in (2, 4) for x in range(6) for y in range(6)]},
+                     "thorough": [{"n": 5, "s5": 0, "a0": 2, "a1": 2, "a2": 2 if (x + y) % 3 else 4, "s0": x, "s1": y} for x in range(6) for y in range(6)]},
          timeout={"quick": 600, "thorough": 1800}, path_timeout=60,
          functions=["sigver.RSACrypto.get_signer", "sigver.RSASigner.sign/verify", "sigver.SIGNER_ALGS"],
          bounds="three entities with distinct keys; every schedule of up to 4 (quick) / 5 (thorough) steps over {get_signer, sign} x entity at call granularity; "
@@ -207,7 +207,7 @@ CONDITIONS = [
          params=[("ent", "int"), ("alg", "int"), ("rs", "int"), ("mut", "int"), ("vkey", "int"), ("response", "bool")],
          pre=["0 <= ent < 3", "0 <= alg < 5", "0 <= rs < %d" % len(RS), "0 <= mut < %d" % len(MUT), "0 <= vkey < 3"],
          partitions={"quick": [{"mut": m, "alg": (m + e) % 5, "rs": _rs_for(m, e), "response": (m + e) % 2 == 0, "ent": e} for m in range(len(MUT)) for e in range(3)],
-                     "thorough": [{"mut": m, "alg": a} for m in range(len(MUT)) for a in range(5)]},
+                     "thorough": [{"mut": m, "alg": a, "response": (m + a) % 2 == 0} for m in range(len(MUT)) for a in range(5)]},
          timeout={"quick": 600, "thorough": 1200}, path_timeout=60,
          functions=["pack.http_redirect_message (signed branch)", "sigver.verify_redirect_signature", "sigver.RSACrypto.get_signer", "sigver.RSASigner.sign/verify"],
          bounds="3 signing entities x 5 RSA-SHA algorithms x RelayState {absent, plain, with '&' and '=', with a percent escape, with a bare '%'} x 14 single mutations of the signed query x verification under each of the 3 keys x request/response"),
